@@ -111,10 +111,26 @@ func (b *verifHubBackend) WriteReader(ctx context.Context, p string, r io.Reader
 	return err
 }
 
+// ---- spoke backend wrapper: transient Exists errors ---------------------------------------------
+
+type verifSpokeBackend struct {
+	*storage.LocalBackend
+	existsErr bool
+}
+
+func (b *verifSpokeBackend) Exists(ctx context.Context, p string) (bool, error) {
+	if b.existsErr {
+		return false, errors.New("verif: transient storage error (stat: input/output error)")
+	}
+	return b.LocalBackend.Exists(ctx, p)
+}
+
 // ---- faulting loopback transport -------------------------------------------------------------
 
 type verifFault struct {
-	K       string `json:"k"` // deliver | retry | drop | backpressure | conflict
+	K       string `json:"k"` // deliver | retry | drop | existserr | backpressure | conflict
+	Reached bool   `json:"reached"` // existserr: the hub processed a clean delivery before the transfer failed
+	IdxFail bool   `json:"idxfail"` // the hub index refuses writes while the hub processes this request
 	Mark    bool   `json:"mark"` // retry: the hub's compaction marks the receipt between the two deliveries
 	Keep    int    `json:"keep"`
 	Flip    int    `json:"flip"`
@@ -133,6 +149,10 @@ type verifTransport struct {
 	regFail *bool
 	calls   []string
 	mark    func(path string)
+	// idxReadOnly makes every write to the hub's receipt index fail (PRAGMA query_only; the hub
+	// database is pinned to one connection so that the pragma governs every statement)
+	idxReadOnly func(on bool)
+	spoke       *verifSpokeBackend
 }
 
 func (t *verifTransport) Reconcile(ctx context.Context, hubID string, pending []*LedgerEntry) (*ReconcileResult, error) {
@@ -143,7 +163,13 @@ func (t *verifTransport) Reconcile(ctx context.Context, hubID string, pending []
 	for _, e := range pending {
 		entries = append(entries, ReconcileEntry{Path: e.Path, SHA256: e.SHA256, SizeBytes: e.SizeBytes})
 	}
+	if t.recF == "idxfail" {
+		t.idxReadOnly(true)
+	}
 	res, err := t.rec.Reconcile(ctx, t.spokeID, entries)
+	if t.recF == "idxfail" {
+		t.idxReadOnly(false)
+	}
 	if t.recF == "lost" {
 		return nil, errors.New("edgesync: reconcile request: response lost")
 	}
@@ -165,6 +191,8 @@ func (t *verifTransport) PutFile(ctx context.Context, hubID string, entry *Ledge
 	}
 	t.calls = append(t.calls, f.K)
 	t.mu.Unlock()
+	// the Exists fault covers the agent's handling of THIS call's failure, whatever made it fail
+	t.spoke.existsErr = f.K == "existserr"
 
 	data, err := io.ReadAll(body)
 	if err != nil {
@@ -172,6 +200,13 @@ func (t *verifTransport) PutFile(ctx context.Context, hubID string, entry *Ledge
 	}
 	switch f.K {
 	case "drop":
+		return nil, errors.New("edgesync: file request: connection reset by peer")
+	case "existserr":
+		// the transfer fails and, while the agent handles that, the spoke's own storage answers
+		// Exists with a transient error
+		if f.Reached {
+			_, _ = t.rcv.Receive(ctx, t.spokeID, entry.Path, entry.SHA256, entry.SizeBytes, offset, bytes.NewReader(data))
+		}
 		return nil, errors.New("edgesync: file request: connection reset by peer")
 	case "backpressure":
 		return BackpressureResult(time.Second), nil
@@ -209,7 +244,13 @@ func (t *verifTransport) PutFile(ctx context.Context, hubID string, entry *Ledge
 		return res, nil
 	}
 	*t.regFail = f.RegFail
+	if f.IdxFail {
+		t.idxReadOnly(true)
+	}
 	res, err := t.rcv.Receive(ctx, t.spokeID, entry.Path, entry.SHA256, entry.SizeBytes, offset, bytes.NewReader(data))
+	if f.IdxFail {
+		t.idxReadOnly(false)
+	}
 	*t.regFail = false
 	if f.Lost {
 		return nil, errors.New("edgesync: file request: response lost")
@@ -280,10 +321,11 @@ const verifSpoke = "rocket-01"
 func verifRunCase(t *testing.T, c *verifCase) verifOut {
 	ctx := context.Background()
 	dir := t.TempDir()
-	spokeBackend, err := storage.NewLocalBackend(filepath.Join(dir, "spoke"), zerolog.Nop())
+	spokeLocal, err := storage.NewLocalBackend(filepath.Join(dir, "spoke"), zerolog.Nop())
 	if err != nil {
 		t.Fatal(err)
 	}
+	spokeBackend := &verifSpokeBackend{LocalBackend: spokeLocal}
 	hubLocal, err := storage.NewLocalBackend(filepath.Join(dir, "hub"), zerolog.Nop())
 	if err != nil {
 		t.Fatal(err)
@@ -301,6 +343,16 @@ func verifRunCase(t *testing.T, c *verifCase) verifOut {
 		return db
 	}
 	spokeDB, hubDB := open("spoke.db"), open("hub.db")
+	hubDB.SetMaxOpenConns(1)
+	idxReadOnly := func(on bool) {
+		v := "OFF"
+		if on {
+			v = "ON"
+		}
+		if _, err := hubDB.Exec("PRAGMA query_only = " + v); err != nil {
+			t.Fatal(err)
+		}
+	}
 	defer spokeDB.Close()
 	defer hubDB.Close()
 
@@ -504,7 +556,7 @@ func verifRunCase(t *testing.T, c *verifCase) verifOut {
 			if err != nil {
 				t.Fatal(err)
 			}
-			tr := &verifTransport{rcv: receiver, rec: reconciler, spokeID: verifSpoke, puts: ev.Puts, recF: ev.Rec, regFail: &regFail, mark: markCompacted}
+			tr := &verifTransport{rcv: receiver, rec: reconciler, spokeID: verifSpoke, puts: ev.Puts, recF: ev.Rec, regFail: &regFail, mark: markCompacted, idxReadOnly: idxReadOnly, spoke: spokeBackend}
 			agent, err := NewAgent(AgentConfig{Ledger: ledger, Transport: tr, Backend: spokeBackend, HubID: DefaultHubID,
 				SpokeID: verifSpoke, MaxAttempts: c.MaxAttempts, MaxConcurrent: 1, BatchSize: 0, Logger: zerolog.Nop()})
 			if err != nil {
@@ -538,6 +590,7 @@ func verifRunCase(t *testing.T, c *verifCase) verifOut {
 			case <-time.After(60 * time.Second):
 				t.Fatalf("case %d: agent run did not finish", c.ID)
 			}
+			spokeBackend.existsErr = false
 			proc.mu.Lock()
 			proc.dead = true
 			o.Points = append([]string{}, proc.points...)
